@@ -17,7 +17,16 @@ def unhex(s):
     return float(s) if s in ("nan", "inf", "-inf") else float.fromhex(s)
 
 
+_FLAGS = {}
+
+
 def model_flag(name, default=True):
+    if name not in _FLAGS:
+        _FLAGS[name] = _model_flag(name, default)
+    return _FLAGS[name]
+
+
+def _model_flag(name, default=True):
     """the faithful-to-the-code switches of coq/C18/Model.v (single place to flip when a fix lands);
     here they only steer the generator"""
     try:
@@ -93,10 +102,11 @@ class Sim:
             return (sub(nw, cav[v]) if v in cav else nw), True
         d = delta[v] if isinstance(delta, dict) else delta
         x = scale(d, nw)
-        ok = d > 0
+        resc = isinstance(delta, dict) and model_flag("code_pervar_delta_rescaled", False)
+        ok = d >= 0 if resc else d > 0
         if v in last:
             x = add(x, scale(1 - d, last[v]))
-            ok = ok and (1 - d) > 0
+            ok = ok and ((1 - d) >= 0 if resc else (1 - d) > 0)
         if v in cav:
             x = sub(x, scale(d, cav[v]))
         return x, ok
@@ -427,6 +437,8 @@ def subset_meta(c):
 
 def subset_crash_class(c):
     """the three crashes of the stochastic path on variables without the plate (case-derived)"""
+    if model_flag("code_subset_scalar_paths", False):
+        return None, None          # repaired: the three shapes go through and are checked like every other case
     plated = set(c["plate"]["vars"])
     bf = c["base_factors"]
     if any(not any(v in plated for v in f) for f in bf):
@@ -1028,8 +1040,9 @@ def oracle_subset(c, r):
         exp = {v: x for v, x in bmap(r["bits0"][i]).items() if v in sel}
         if bmap(r["sub_bits0"][i]) != exp:
             fails.append(("subset of factor %d is not the selected plate elements of its messages" % i, []))
+        has_plate = any(u not in scalars for u in c["factors"][i])
         for v, x in r["rescale"][i]:
-            e = fr if v in scalars else 1.0
+            e = fr if (v in scalars and has_plate) else 1.0
             if abs(x - e) > 1e-12:
                 fails.append(("rescale of variable %d in factor %d is %r, expected %r" % (v, i, x, e), []))
     state = [dmap(m) for m in r["sub0"]]
@@ -1050,13 +1063,18 @@ def oracle_subset(c, r):
         cav_t, own_t, model_t = post_identities(state, i)
         mag = magnitude(*state)
         # the reported split: factor_dist = own^s, cavity = cavity * own^(1-s); their product is the model distribution
+        has_plate = any(u not in scalars for u in own_t)
         for v in own_t:
-            sc_ = fr if v in scalars else 1.0
+            sc_ = fr if (v in scalars and has_plate) else 1.0
             exp_own = (sc_ * own_t[v][0], sc_ * own_t[v][1])
             if v not in own_o or not near(own_o[v], exp_own, mag[v]):
                 fails.append((where + ": factor_dist of variable %d is not own^%.3g" % (v, sc_), []))
             c0_ = cav_t.get(v)
-            exp_cav = None if c0_ is None else (c0_[0] + (1 - sc_) * own_t[v][0], c0_[1] + (1 - sc_) * own_t[v][1])
+            if c0_ is None:
+                # no other owner: only the held-back part own^(1-s) (nothing at all when the variable is not rescaled)
+                exp_cav = ((1 - sc_) * own_t[v][0], (1 - sc_) * own_t[v][1]) if sc_ < 1 else None
+            else:
+                exp_cav = (c0_[0] + (1 - sc_) * own_t[v][0], c0_[1] + (1 - sc_) * own_t[v][1])
             if (exp_cav is None) != (v not in cav_o) or (exp_cav is not None and not near(cav_o[v], exp_cav, mag[v])):
                 fails.append((where + ": cavity of variable %d is not cavity * own^(1-s)" % v, []))
             if v not in model_o or not near(model_o[v], model_t[v], mag[v]):
